@@ -132,4 +132,8 @@ def units():
               'src': '#include <random>\n#include <AIToolbox/Factored/Bandit/FlattenedModel.hpp>\n'
                      'int main() { using D = std::bernoulli_distribution; %sFactored::Bandit::Model<D> * m = nullptr; if (!m) return 0; '
                      '%sFactored::Bandit::FlattenedModel<D> f(*m); return (int)f.convertA(1).size(); }\n' % (A, A)})
+    for cls in ('DynaQ', 'Dyna2'):
+        U.append({'id': 'link:%s::setN' % cls, 'link': True,
+                  'src': '#include <AIToolbox/MDP/Algorithms/%s.hpp>\n#include <AIToolbox/MDP/Model.hpp>\n'
+                         'int main() { %sMDP::Model m(2, 2); %sMDP::%s<%sMDP::Model> d(m); d.setN(3); return (int)d.getN() - 3; }\n' % (cls, A, A, cls, A)})
     return [u for u in U if u]
